@@ -482,6 +482,10 @@ theorem quiet_mono (σ σ' : XSys) (hr : XReach false σ) (h : Quiet σ σ') : S
     rw [happ] at h
     cases h
     exact hle
+  | catchup i j s d hs hd =>
+    exact stepLe_set _ j d _ hd (catchupCopy_frontier d _ _ _)
+  | catchupFromOwner j d hd =>
+    exact stepLe_set _ j d _ hd (catchupCopy_frontier d _ _ _)
   | deliverToOwner d hd now o' st evs happ => exact stepLe_refl _
 
 theorem qrun_mono {a b : XSys} (h : QRun a b) (ha : XReach false a) : StepLe a.fronts b.fronts := by
@@ -696,6 +700,10 @@ example : ConvergedAt exσ2.H.length exσ2.fronts := by
   intro f hf
   have e : exσ2.fronts = [(0, 1)] := by decide
   rw [e] at hf; simp at hf; subst hf; rfl
+/-- an honest catch-up from the owner is a step of the system, and brings the holder to the owner's frontier -/
+example : XStep false exσ1 { exσ1 with replicas := exσ1.replicas.set 0 ((⟨1, [], 0, 0⟩ : NodeState).catchupCopy exσ1.owner.kvs exσ1.owner.maxVersion exσ1.owner.lastGc) } :=
+  XStep.catchupFromOwner exσ1 0 ⟨1, [], 0, 0⟩ rfl
+example : ((⟨1, [], 0, 0⟩ : NodeState).catchupCopy exσ1.owner.kvs exσ1.owner.maxVersion exσ1.owner.lastGc).frontier = (0, 1) := by decide
 example : OwnerShake 0 exσ1 exσ2 := by
   refine ⟨⟨1, [], 0, 0⟩, rfl, Or.inr ⟨by decide, 1, 9, exR', .apply, [⟨[107], [118]⟩], Nat.le_refl _, ?_, rfl⟩⟩
   rfl
@@ -813,6 +821,23 @@ theorem quiet_keeps_converged (σ σ' : XSys) (hreach : XReach false σ) (h : Qu
       rw [hsame hrej]
       exact ⟨r, by simp [List.getElem?_set_self (lt_of_getElemOpt_some hri)], hc⟩
     · exact ⟨r, by simp [List.getElem?_set_ne hik, hri], hc⟩
+  | catchup k j s d hs hd =>
+    by_cases hji : j = i
+    · subst hji
+      rw [hri] at hd; cases hd
+      have hsle : s.maxVersion ≤ σ.H.length := by
+        have := (C03_integrity σ hreach s (List.mem_of_getElem? hs)).2.1
+        rw [C03_owner_is_frontier σ hreach] at this; exact this
+      rw [catchupCopy_of_ge r _ _ _ (by omega)]
+      exact ⟨r, by simp [List.getElem?_set_self (lt_of_getElemOpt_some hri)], hc⟩
+    · exact ⟨r, by simp [List.getElem?_set_ne hji, hri], hc⟩
+  | catchupFromOwner j d hd =>
+    by_cases hji : j = i
+    · subst hji
+      rw [hri] at hd; cases hd
+      rw [catchupCopy_of_ge r _ _ _ (by rw [C03_owner_is_frontier σ hreach]; omega)]
+      exact ⟨r, by simp [List.getElem?_set_self (lt_of_getElemOpt_some hri)], hc⟩
+    · exact ⟨r, by simp [List.getElem?_set_ne hji, hri], hc⟩
   | deliverToOwner d hd now o' st evs happ => exact ⟨r, hri, hc⟩
 
 theorem qrun_keeps_converged {a b : XSys} (h : QRun a b) (ha : XReach false a) (i : Nat) (r : NodeState)
@@ -1107,6 +1132,68 @@ theorem C01_reply_advances_receiver (C : Compressor) (cs : ClusterState) (hcs : 
   rw [happ1] at happ'
   cases happ'
   exact ⟨r1, hr', hlt⟩
+
+
+
+/-- potential of a receiver over a list of members: the ranks of its copies (0 for a member it does not hold) -/
+def ClusterState.potential (V : Nat) (ms : List Id) (cs : ClusterState) : Nat :=
+  (ms.map (fun i => match cs.nodeState i with | some s => rank V s.frontier | none => 0)).sum
+
+theorem sum_map_le {α : Type} (f g : α → Nat) : ∀ (l : List α), (∀ x ∈ l, f x ≤ g x) → (l.map f).sum ≤ (l.map g).sum
+  | [], _ => Nat.le_refl _
+  | a :: t, h => by
+    simp only [List.map_cons, List.sum_cons]
+    have h1 := h a List.mem_cons_self
+    have h2 := sum_map_le f g t (fun x hx => h x (List.mem_cons_of_mem _ hx))
+    omega
+
+theorem sum_map_lt {α : Type} (f g : α → Nat) : ∀ (l : List α), (∀ x ∈ l, f x ≤ g x) → (∃ x ∈ l, f x < g x) →
+    (l.map f).sum < (l.map g).sum
+  | [], _, ⟨x, hx, _⟩ => by cases hx
+  | a :: t, h, ⟨x, hx, hlt⟩ => by
+    simp only [List.map_cons, List.sum_cons]
+    have h1 := h a List.mem_cons_self
+    have hle := sum_map_le f g t (fun y hy => h y (List.mem_cons_of_mem _ hy))
+    rcases List.mem_cons.1 hx with rfl | hx'
+    · omega
+    · have := sum_map_lt f g t (fun y hy => h y (List.mem_cons_of_mem _ hy)) ⟨x, hx', hlt⟩
+      omega
+
+/-- **C01 (every productive reply raises the receiver's potential).** Under the hypotheses of
+`C01_reply_advances_receiver`, with every copy held by the receiver within the owner's `V` versions:
+the potential of the receiver over any list of members containing the first stale member strictly
+increases when the reply is applied. Since the potential over `m` members is at most
+`m · ((V+1)² − 1)` (`sysRank_bounded`), a receiver can absorb only that many productive replies,
+whichever members compete for the datagrams. -/
+theorem C01_reply_raises_potential (C : Compressor) (cs : ClusterState) (hcs : WFCluster cs)
+    (digest : Digest) (mtu : Nat) (h100 : 100 ≤ mtu) (hmax : mtu ≤ 65539) (sched order : List Id)
+    (sn : StaleNode) (rest : List StaleNode)
+    (hs : sortStale order (staleNodes cs digest sched) = sn :: rest)
+    (hwf : WFOp (.node sn.id sn.state.lastGc sn.fromExcl))
+    (hh : opLen (.node sn.id sn.state.lastGc sn.fromExcl) ≤ 16384)
+    (hfit : opLen (.node sn.id sn.state.lastGc sn.fromExcl) + firstItemLen sn + 7 ≤ mtu)
+    (rc : ClusterState) (r : NodeState) (hrc : rc.nodeState sn.id = some r)
+    (hr : digestEntry sn.id digest = (r.lastGc, r.maxVersion)) (now : Nat)
+    (V : Nat) (ms : List Id) (hmem : sn.id ∈ ms)
+    (hbound : ∀ i s, rc.nodeState i = some s → s.maxVersion ≤ V) :
+    ∃ delta rc' reset evs, computeDelta C cs digest mtu sched order = .ok delta ∧
+      ClusterState.applyDelta now rc delta.nodeDeltas = .ok (rc', reset, evs) ∧
+      rc.potential V ms < rc'.potential V ms := by
+  obtain ⟨delta, rc', reset, evs, hd, happ, hmono, hnone, r', hr', hlt⟩ :=
+    C01_reply_advances_receiver C cs hcs digest mtu h100 hmax sched order sn rest hs hwf hh hfit rc r hrc hr now
+  refine ⟨delta, rc', reset, evs, hd, happ, ?_⟩
+  unfold ClusterState.potential
+  apply sum_map_lt
+  · intro i _
+    cases hi : rc.nodeState i with
+    | none => rw [hnone i hi]; exact Nat.le_refl _
+    | some s =>
+      obtain ⟨s', hs', hle⟩ := hmono i s hi
+      rw [hs']
+      exact C01_rank_mono V _ _ (hbound i s hi) hle
+  · refine ⟨sn.id, hmem, ?_⟩
+    rw [hrc, hr']
+    exact C01_rank_strict V _ _ (hbound sn.id r hrc) hlt
 
 
 /-! ### The handlers end to end -/
